@@ -77,6 +77,13 @@ MUTANTS = {
                             "        trace_codes_map = default_trace_codes()\n\n        has_filters", ['C19']),
     'vnode_default_table': (P + 'traces_parser.py', "return list(self.vnode_generator([e for e in events if self.trace_codes.get(e.eventid) == 'VFS_LOOKUP']))",
                             "return list(self.vnode_generator([e for e in events if e.eventid == 0x3010090]))", ['C19']),
+    'result_words_swapped': (P + 'trace_handlers/bsd.py', "    error_code = end_event.values[0]\n    res = end_event.values[1]", "    error_code = end_event.values[1]\n    res = end_event.values[0]", ['C10']),
+    'result_value_first': (P + 'trace_handlers/bsd.py', "    return success if not error_code else err", "    return success if success else err", ['C10']),
+    'result_both': (P + 'trace_handlers/bsd.py', "    return success if not error_code else err", "    return success if not error_code else (err + ', ' + success if success else err)", ['C10']),
+    'read_size_from_end': (P + 'trace_handlers/bsd.py', "    return BscRead(events, args[0], args[1], args[2], result, no_cancel)", "    return BscRead(events, args[0], args[1], events[-1].values[1], result, no_cancel)", ['C09', 'C10']),
+    'write_args_swapped': (P + 'trace_handlers/bsd.py', "    return BscWrite(events, args[0], args[1], args[2], result, no_cancel)", "    return BscWrite(events, args[0], args[2], args[1], result, no_cancel)", ['C09']),
+    'kill_result_from_start': (P + 'trace_handlers/bsd.py', "    return BscKill(events, events[0].values[0], events[0].values[1], serialize_result(events[-1]))", "    return BscKill(events, events[0].values[0], events[0].values[1], serialize_result(events[0]))", ['C10']),
+    'mach_arg_shift': (P + 'trace_handlers/mach.py', "    return MachPortAllocate(events, args[0], MachPortRight(args[1]), args[2])", "    return MachPortAllocate(events, args[0], MachPortRight(args[1]), args[3])", ['C09']),
 }
 
 
